@@ -217,7 +217,10 @@ FamRecover ==
       \* a blinding vector with zero components (all of them, for the one commitment)
       Zb == { One([[Member(n, t, 1, 1, "mid", vs, 1, "none", "none", 1, ps_seed, 0, "chacha") EXCEPT !.v.seed = vs2] EXCEPT !.zb = 1], mode) :
                 n \in {8, 64}, t \in {1, 2, 6}, vs \in {"zero", "mid"}, ps_seed \in {0, 1}, vs2 \in {0, 1, 2}, mode \in Modes }
-  IN {s \in Single : s.members[1].n > 1 \/ s.members[1].mut.kind = "none"} \cup Mix \cup Zb
+      \* seeds with special VALUES (classes 5, 6, 7 = the zero scalar, one, the largest canonical scalar): a seed is any scalar
+      Special == { One([Member(n, t, 1, 1, "mid", "max", 1, "none", "none", 1, ps_seed, 0, "chacha") EXCEPT !.v.seed = vs], mode) :
+                     n \in {8, 64}, t \in {1, 6}, ps_seed \in {5, 6, 7}, vs \in {0, 1, 5, 6, 7}, mode \in Modes }
+  IN {s \in Single : s.members[1].n > 1 \/ s.members[1].mut.kind = "none"} \cup Mix \cup Zb \cup Special
 
 (***************************************************************************************************)
 (* capacity (C12)                                                                                    *)
